@@ -10,13 +10,16 @@ for l in open(os.path.join(V, "matrix.tsv")):
     if len(r) >= 3 and r[2] not in ("DONE", "PATCH-FAILED"):
         mx[(r[0], r[1])][r[2]] = (r[3] if len(r) > 3 else "").strip()
 NOTES = {
+    ("C01", "C"): "missed — same rounding of the rectangle's left/right border width as C01-B/C06-A (numeric four-border arithmetic, stated as not decided)",
+    ("C06", "C"): "missed — same rounding of the rectangle's left/right border width (numeric four-border arithmetic, stated as not decided)",
+    ("C02", "C"): "missed — `Triangle::is_collapsed` with all() instead of any(): thick-join geometry, stated as not decided",
     ("C01", "B"): "missed — same change as C06/A: rounding of the rectangle's left/right border width (numeric four-border arithmetic, stated as not decided)",
     ("C06", "A"): "missed — rounding of the rectangle's left/right border width for odd widths < 2*stroke (numeric four-border arithmetic, stated as not decided)",
     ("C02", "B"): "missed — `Triangle::is_collapsed` inspects one corner only: thick-join geometry, stated as not decided",
 }
 rows = []
 for p in sorted(os.listdir(os.path.join(V, "_incoming"))):
-    for v in ("A", "B"):
+    for v in ("A", "B", "C", "D"):
         src = os.path.join(V, "_incoming", p, v)
         if not os.path.isdir(src):
             continue
@@ -39,9 +42,14 @@ for p in sorted(os.listdir(os.path.join(V, "_incoming"))):
         files = sorted(set(re.findall(r"^\+\+\+ b/(\S+)", open(os.path.join(dst, "patch.diff")).read(), re.M)))
         # what it needs: the paragraph(s) of the notes mentioning manifest/trigger/needs
         needs = []
-        for para in re.split(r"\n\s*\n", notes):
-            if re.search(r"manifest|trigger|needs|only when|requires", para, re.I):
-                needs.append(" ".join(para.split())[:600])
+        # the section of the notes headed "What is needed for it to manifest" (or the paragraphs that say so)
+        msec = re.search(r"^#+[^\n]*(needed|manifest|trigger)[^\n]*\n(.*?)(?=^#+ |\Z)", notes, re.I | re.M | re.S)
+        if msec and msec.group(2).strip():
+            needs.append(" ".join(msec.group(2).split())[:700])
+        else:
+            for para in re.split(r"\n\s*\n", notes):
+                if re.search(r"manifest|trigger|needs|only when|requires", para, re.I) and not para.lstrip().startswith("#"):
+                    needs.append(" ".join(para.split())[:600])
         caught = mx.get((p, v), {})
         meta = {
             "id": sid, "breaks_property": p, "property_title": props[p]["title"], "files_changed": files,
